@@ -11,7 +11,8 @@ from ..astutil import (
 )
 from ..cfg import no_exc
 from ..oracles import load
-from ..report import Registry, sub
+from ..report import Registry, chain, sub
+from . import _helpers_rob_g1 as G
 
 R = Registry(
     "C43",
@@ -209,73 +210,77 @@ ABSORB = {"and": False, "or": True}
 
 
 @R.rule("C43-R2", floor=2, template="T-SIBLING",
-        desc="AND/OR clause-list evaluators return from inside the loop only with _EXPIRED_OBJECT or the "
-             "absorbing value (False for AND, True for OR); NULL is remembered and decided after the loop")
+        desc="AND/OR clause-list evaluators implement SQL three-valued logic: the closure is model-checked over every "
+             "operand sequence of TRUE/FALSE/NULL/expired up to length 3 -- an absorbing operand (False for AND, True "
+             "for OR) decides whatever the other operands are, otherwise NULL if any operand is NULL, otherwise the "
+             "identity value; an expired operand yields _EXPIRED_OBJECT (or the absorbing value when one is present)")
 def r2(ctx):
     for kind, absorbing in ABSORB.items():
         f = ctx.func(f"{COMP}.visit_{kind}_clauselist_op")
         cls_ = _closures(f.node)
         ctx.require(len(cls_) == 1, f"{f.key}: expected exactly one evaluate closure")
         cl = cls_[0]
-        loops = [s for s in cl.body if isinstance(s, ast.For)]
-        ctx.require(len(loops) == 1, f"{f.key}: expected one top-level loop over the evaluators")
-        loop = loops[0]
-        probs = []
-        for r in [n for n in walk_local(loop) if isinstance(n, ast.Return)]:
-            v = r.value
-            if v is not None and _is_name(v, "_EXPIRED_OBJECT"):
-                continue
-            if isinstance(v, ast.Constant) and v.value is absorbing:
-                continue
-            if v is None or (isinstance(v, ast.Constant) and v.value is None):
-                other = "FALSE" if kind == "and" else "TRUE"
-                probs.append(f"returns NULL from inside the loop at the first NULL operand: a later {other} operand "
-                             f"must win (NULL {kind.upper()} {other} = {other}; e.g. NOT (NULL AND FALSE) is TRUE)")
+        ctx.functions_analysed.add(f.key)
+        # the list of sub-evaluators: the parameter of the visit method the closure iterates over / calls elements of
+        outer_params = [a.arg for a in f.node.args.args if a.arg not in ("self", "cls")]
+        iterated = {n.iter.id for n in ast.walk(cl) if isinstance(n, (ast.For, ast.comprehension)) and isinstance(n.iter, ast.Name)}
+        evs = [p for p in outer_params if p in iterated]
+        ctx.require(len(evs) == 1, f"{f.key}: the evaluators parameter iterated by the closure not found")
+        probs = _clauselist_counterexamples(ctx, f, cl, evs[0], kind, absorbing)
+        ctx.check(not probs, f.key, "; ".join(probs[:4]) + (f" (+{len(probs) - 4} more)" if len(probs) > 4 else ""),
+                  f"SQL 3VL {kind.upper()} on all operand sequences up to length 3", f.loc)
+
+
+_SQLNAME = {True: "TRUE", False: "FALSE", None: "NULL"}
+
+
+def _clauselist_counterexamples(ctx, f, cl, evname, kind, absorbing):
+    import itertools
+    EXP, NOOBJ = G.Sentinel("_EXPIRED_OBJECT", "self"), G.Sentinel("_NO_OBJECT", "none")
+    sent = {"_EXPIRED_OBJECT": EXP, "_NO_OBJECT": NOOBJ}
+    obj = G.Opaque("obj")
+
+    def show(v):
+        return "expired" if v is EXP else _SQLNAME.get(v, repr(v)) if (v is None or isinstance(v, bool)) else repr(v)
+
+    probs, groups = [], set()
+    for n in range(0, 4):
+        for seq in itertools.product((True, False, None, EXP), repeat=n):
+            evaluators = [(lambda o, v=v: v) for v in seq]
+            mi = G.Mini(sent, free={evname: evaluators})
+            try:
+                res = mi.call(cl, obj)
+            except G.Unsupported as e:
+                ctx.error(f"{f.key}: the evaluate closure uses a construct outside the model-checked subset: {e}")
+            has_exp = any(v is EXP for v in seq)
+            has_abs = any(v is absorbing for v in seq)
+            if has_exp:
+                allowed = [EXP] + ([absorbing] if has_abs else [])
+            elif has_abs:
+                allowed = [absorbing]
+            elif any(v is None for v in seq):
+                allowed = [None]
             else:
-                probs.append(f"early return of `{unparse(v)}` which is not the absorbing value {absorbing}")
-        pm_ = f.module.parents()
-        # the operand value: bound from a call of the loop variable
-        vnames = {n.targets[0].id for n in walk_local(loop) if isinstance(n, ast.Assign) and len(n.targets) == 1
-                  and isinstance(n.targets[0], ast.Name) and isinstance(n.value, ast.Call) and isinstance(n.value.func, ast.Name)
-                  and isinstance(loop.target, ast.Name) and n.value.func.id == loop.target.id}
-        ctx.require(len(vnames) == 1, f"{f.key}: operand value local not understood")
-        vname = next(iter(vnames))
-        absorbing_rets = [r for r in walk_local(loop) if isinstance(r, ast.Return) and isinstance(r.value, ast.Constant) and r.value.value is absorbing]
-        if not absorbing_rets:
-            probs.append(f"never returns {absorbing} from inside the loop: a {str(absorbing).upper()} operand must decide the result "
-                         f"whatever the other operands are")
-        for r in absorbing_rets:
-            atoms = set(guard_atoms(lexical_guards(pm_, r, stop=loop)))
-            if (vname, absorbing) not in atoms:
-                probs.append(f"returns {absorbing} from inside the loop but not under `{'' if absorbing else 'not '}{vname}` "
-                             f"(guards: {sorted(atoms)})")
-        after = cl.body[cl.body.index(loop) + 1:]
-        flags = set()
-        for st in walk_stmts(loop.body):
-            if isinstance(st, (ast.Assign, ast.AugAssign)):
-                t = st.targets[0] if isinstance(st, ast.Assign) else st.target
-                if not isinstance(t, ast.Name):
-                    continue
-                # `flag = flag or value is None`   or   `if value is None [or ...]: flag = True`
-                under_null_test = any(" is None" in unparse(tst) and pol for tst, pol in lexical_guards(pm_, st, stop=loop))
-                if " is None" in unparse(st.value) or under_null_test:
-                    flags.add(t.id)
-        null_after = False
-        ident_after = False
-        for st in walk_stmts(after):
-            if isinstance(st, ast.Return):
-                v = st.value
-                if isinstance(v, ast.Constant) and v.value is None:
-                    par = f.module.parents().get(st)
-                    if isinstance(par, ast.If) and isinstance(par.test, ast.Name) and par.test.id in flags:
-                        null_after = True
-                elif isinstance(v, ast.Constant) and v.value is (not absorbing):
-                    ident_after = True
-        if not null_after:
-            probs.append("after the loop NULL is not returned under a flag recorded from `value is None` inside the loop")
-        if not ident_after:
-            probs.append(f"after the loop the identity value {not absorbing} is not returned")
-        ctx.check(not probs, f.key, "; ".join(probs), f"early return only {absorbing}/_EXPIRED_OBJECT; NULL decided after loop", f.loc)
+                allowed = [not absorbing]
+            if any(res is a for a in allowed):
+                continue
+            # one message per kind of error
+            if has_exp:
+                grp, why = "expired", "an operand that could not be evaluated must make the result _EXPIRED_OBJECT"
+            elif has_abs:
+                other = _SQLNAME[absorbing]
+                grp, why = "absorbing", (f"a {other} operand must decide the result whatever the other operands are "
+                                         f"(NULL {kind.upper()} {other} = {other}; e.g. NOT (NULL AND FALSE) is TRUE)")
+            elif any(v is None for v in seq):
+                grp, why = "null", "NULL must be remembered and returned after the loop when no operand decides"
+            else:
+                grp, why = "identity", f"without a deciding or NULL operand the result is the identity value {not absorbing}"
+            if grp in groups:
+                continue
+            groups.add(grp)
+            probs.append(f"operands ({', '.join(show(v) for v in seq)}) evaluate to {show(res)} but SQL {kind.upper()} gives "
+                         f"{' or '.join(show(a) for a in allowed)}: {why}")
+    return probs
 
 
 PYOPS = {"add": ast.Add, "sub": ast.Sub, "mul": ast.Mult, "truediv": ast.Div, "lt": ast.Lt, "le": ast.LtE,
@@ -464,25 +469,69 @@ def r4(ctx):
     ctx.check(good, f.key, "'auto' does not fall back to the fetch strategy when the criteria cannot be evaluated "
                            "(or does not select 'evaluate' when they can)",
               "evaluable -> 'evaluate'; UnevaluatableError -> _do_pre_synchronize_fetch", f.loc)
-    # (c) matching by identity
+    # (c) matching by identity: the decision "is this object matched" is evaluated for every kind of evaluator result
     f = ctx.func(f"{base}._get_matched_objects_on_criteria")
     pm = f.module.parents()
+    g = ctx.cfg(f)
+    defs = G.single_defs(f.node)
     apps = [c for c in calls_in(f.node) if (call_name(c) or "").endswith(".append")]
     ctx.require(apps, f"{f.key}: no result.append(...) found")
-    good = True
-    why = ""
+    vnames = set()
+    for n in walk_local(f.node):
+        if isinstance(n, ast.Assign) and len(n.targets) == 1 and isinstance(n.targets[0], ast.Name) and isinstance(n.value, ast.Call):
+            fn_ = G.resolve_name(n.value.func, defs)
+            if isinstance(fn_, ast.Attribute) and fn_.attr == "_eval_condition":
+                vnames.add(n.targets[0].id)
+    ctx.require(len(vnames) == 1, f"{f.key}: the local that receives the evaluator result not found")
+    v = next(iter(vnames))
+    EXP, NOOBJ = G.Sentinel("_EXPIRED_OBJECT", "self"), G.Sentinel("_NO_OBJECT", "none")
+    sent = {"_EXPIRED_OBJECT": EXP, "_NO_OBJECT": NOOBJ}
+    domain = [True, EXP, False, None, 1, 0, "x", NOOBJ]
+    probs = []
+    sites = []
     for c in apps:
-        atoms = guard_atoms(lexical_guards(pm, c, stop=f.node))
-        guards = lexical_guards(pm, c, stop=f.node)
-        tests = [unparse(t_) for t_, p in guards if p]
-        ok = any(re.fullmatch(r"(\w+) is True or \1 is (\w+\.)*_EXPIRED_OBJECT", s) for s in tests)
-        if not ok:
-            good, why = False, f"append guarded by {tests}"
-        tup = c.args[0] if c.args else None
-        if not (isinstance(tup, ast.Tuple) and len(tup.elts) == 4 and "_EXPIRED_OBJECT" in unparse(tup.elts[3])):
-            good, why = False, "matched tuple does not carry the is-expired flag as 4th element"
-    ctx.check(good, f.key, "objects are not matched by `cond is True or cond is _EXPIRED_OBJECT` identity tests "
-                           f"(truthiness / == would accept the sentinel or non-boolean values): {why}",
+        st = c
+        while st in pm and not isinstance(st, ast.stmt):
+            st = pm[st]
+        guards = list(lexical_guards(pm, c, stop=f.node))
+        seen = {(id(t_), p) for t_, p in guards}
+        for nid in g.nodes_for(st)[:1]:
+            for t_, p in g.edge_guards(nid):
+                if (id(t_), p) not in seen:
+                    guards.append((t_, p))
+        dec = []
+        for t_, p in guards:
+            e = G.expand_expr(t_, defs, keep={v})
+            if v in G.names_read(e):
+                dec.append((e, p))
+        tup = G.resolve_name(c.args[0], defs) if c.args else None
+        if not (isinstance(tup, ast.Tuple) and len(tup.elts) == 4):
+            probs.append("the matched entry is not a 4-tuple (object, state, dict, is-expired flag)")
+            continue
+        sites.append((dec, G.expand_expr(tup.elts[3], defs, keep={v})))
+
+    def shown(dec):
+        return " and ".join(("" if p else "not ") + "(" + unparse(e) + ")" for e, p in dec) or "unconditional"
+
+    try:
+        for val in domain if sites else []:
+            mi = G.Mini(sent)
+            hits = [(dec, fl) for dec, fl in sites if all(mi.truth(mi.ev(e, {v: val})) == p for e, p in dec)]
+            want = val is True or val is EXP
+            if want and not hits:
+                probs.append(f"an evaluator result of {val!r} is not matched (decision: {' | '.join(shown(d) for d, _ in sites)})")
+            elif not want and hits:
+                probs.append(f"an evaluator result of {val!r} is matched (decision: {shown(hits[0][0])})")
+            elif len(hits) > 1:
+                probs.append(f"an evaluator result of {val!r} is appended {len(hits)} times")
+            elif want:
+                fl = mi.truth(mi.ev(hits[0][1], {v: val}))
+                if fl != (val is EXP):
+                    probs.append(f"the is-expired flag (4th element) is {fl} for an evaluator result of {val!r}")
+    except G.Unsupported as e:
+        ctx.error(f"{f.key}: the matching decision uses a construct outside the model-checked subset: {e}")
+    ctx.check(not probs, f.key, "objects are not matched by `cond is True or cond is _EXPIRED_OBJECT` identity tests "
+                                f"(truthiness / == would accept the sentinel or non-boolean values): {'; '.join(probs[:3])}",
               "identity tests; 4-tuples carry the expired flag", f.loc)
     # (d) consumers honour the flag
     for cname in ("_BulkORMUpdate", "_BulkORMDelete"):
@@ -545,9 +594,10 @@ def r4(ctx):
             key = f"{fi.key}:evaluator-result"
             par = pm.get(c)
             v = par.targets[0].id if isinstance(par, ast.Assign) and isinstance(par.targets[0], ast.Name) else None
+            fdefs = G.single_defs(fi.node)
             tested = v is not None and any(
                 isinstance(x, ast.Compare) and isinstance(x.ops[0], (ast.Is, ast.IsNot)) and isinstance(x.left, ast.Name)
-                and x.left.id == v and _is_name(x.comparators[0], "_EXPIRED_OBJECT") for x in ast.walk(fi.node))
+                and x.left.id == v and _is_name(G.resolve_name(x.comparators[0], fdefs), "_EXPIRED_OBJECT") for x in ast.walk(fi.node))
             ctx.check(tested, key,
                       f"the result of `{unparse(c)}` is {'stored' if isinstance(par, ast.Assign) else 'used'} without an "
                       f"`is _EXPIRED_OBJECT` test: when the expression reads an expired attribute the internal sentinel "
@@ -867,3 +917,40 @@ R.mutant("matched-objects-token-filter-inverted", BP,
          sub("                for obj, state, dict_ in raw_data\n                if state.identity_token == identity_token\n",
              "                for obj, state, dict_ in raw_data\n                if state.identity_token != identity_token\n"),
          "C43-R5")
+
+# ---- rob-G1: benign refactoring families (renamed locals, flag idioms, conditional-expression return, sentinel alias,
+# named boolean local, inverted if/else, guard clause) and breaking edits written in the refactored shapes
+_OR_BODY = "            has_null = False\n            for sub_evaluate in evaluators:\n                value = sub_evaluate(obj)\n                if value is _EXPIRED_OBJECT:\n                    return _EXPIRED_OBJECT\n                elif value:\n                    return True\n                has_null = has_null or value is None\n            if has_null:\n                return None\n            return False\n"
+_AND_BODY = "            has_null = False\n            for sub_evaluate in evaluators:\n                value = sub_evaluate(obj)\n                if value is _EXPIRED_OBJECT:\n                    return _EXPIRED_OBJECT\n\n" + _AND_NULL
+_OR_G1 = "            saw_null = False\n            for operand_evaluator in evaluators:\n                operand = operand_evaluator(obj)\n                if operand is _EXPIRED_OBJECT:\n                    return _EXPIRED_OBJECT\n                if operand:\n                    return True\n                if operand is None:\n                    saw_null = True\n            return None if saw_null else False\n"
+_AND_G1 = "            saw_null = False\n            for operand_evaluator in evaluators:\n                operand = operand_evaluator(obj)\n                if operand is _EXPIRED_OBJECT:\n                    return _EXPIRED_OBJECT\n                elif operand is None or operand is _NO_OBJECT:\n                    saw_null = True\n                elif not operand:\n                    return False\n            return None if saw_null else True\n"
+R.mutant("benign-or-flag-by-if-and-ternary-return", EV, sub(_OR_BODY, _OR_G1), None)
+R.mutant("benign-and-elif-chain-and-ternary-return", EV, sub(_AND_BODY, _AND_G1), None)
+R.mutant("benign-or-flag-by-augmented-or", EV, sub("                has_null = has_null or value is None\n", "                has_null |= value is None\n"), None)
+R.mutant("benign-or-inverted-tail", EV, sub("            if has_null:\n                return None\n            return False\n", "            if not has_null:\n                return False\n            return None\n"), None)
+R.mutant("benign-or-null-recorded-with-continue", EV,
+         sub("                elif value:\n                    return True\n                has_null = has_null or value is None\n",
+             "                if value is None:\n                    has_null = True\n                    continue\n                if value:\n                    return True\n"), None)
+R.mutant("or-ternary-return-swapped", EV, sub(_OR_BODY, _OR_G1.replace("return None if saw_null else False", "return False if saw_null else None")), "C43-R2")
+R.mutant("and-ternary-return-identity-only", EV, sub(_AND_BODY, _AND_G1.replace("return None if saw_null else True", "return True")), "C43-R2")
+R.mutant("or-flag-recorded-for-false-operands", EV, sub(_OR_BODY, _OR_G1.replace("                if operand is None:\n", "                if not operand:\n")), "C43-R2")
+R.mutant("and-expired-operand-counts-as-null", EV,
+         sub(_AND_BODY, _AND_G1.replace("                if operand is _EXPIRED_OBJECT:\n                    return _EXPIRED_OBJECT\n                elif operand is None or operand is _NO_OBJECT:\n",
+                                        "                if operand is None or operand is _NO_OBJECT or operand is _EXPIRED_OBJECT:\n")), "C43-R2")
+_MATCH_IF = "            if (\n                evaled_condition is True\n                or evaled_condition is evaluator._EXPIRED_OBJECT\n            ):\n                result.append(\n                    (\n                        obj,\n                        state,\n                        dict_,\n                        evaled_condition is evaluator._EXPIRED_OBJECT,\n                    )\n                )\n"
+_MATCH_G3 = "            is_partially_expired = evaled_condition is expired_marker\n            if evaled_condition is True or is_partially_expired:\n                result.append((obj, state, dict_, is_partially_expired))\n"
+_MARKER = ("        result = []\n        for obj, state, dict_ in raw_data:\n", "        expired_marker = evaluator._EXPIRED_OBJECT\n\n        result = []\n        for obj, state, dict_ in raw_data:\n")
+R.mutant("benign-match-sentinel-alias-and-named-flag", BP, chain(sub(*_MARKER), sub(_MATCH_IF, _MATCH_G3)), None)
+R.mutant("benign-match-guard-clause", BP,
+         sub(_MATCH_IF, "            if not (\n                evaled_condition is True\n                or evaled_condition is evaluator._EXPIRED_OBJECT\n            ):\n                continue\n            result.append(\n                (obj, state, dict_, evaled_condition is evaluator._EXPIRED_OBJECT)\n            )\n"), None)
+R.mutant("benign-match-two-branches-constant-flag", BP,
+         sub(_MATCH_IF, "            if evaled_condition is evaluator._EXPIRED_OBJECT:\n                result.append((obj, state, dict_, True))\n            elif evaled_condition is True:\n                result.append((obj, state, dict_, False))\n"), None)
+R.mutant("benign-delete-inverted-flag-branches", BP,
+         sub("            if is_partially_expired:\n                state._expire(dict_, session.identity_map._modified)\n            else:\n                to_delete.append(state)\n",
+             "            if not is_partially_expired:\n                to_delete.append(state)\n            else:\n                state._expire(dict_, session.identity_map._modified)\n"), None)
+R.mutant("match-alias-form-by-truthiness", BP, chain(sub(*_MARKER), sub(_MATCH_IF, _MATCH_G3.replace("if evaled_condition is True or", "if evaled_condition or"))), "C43-R4")
+R.mutant("match-alias-form-flag-is-true-test", BP, chain(sub(*_MARKER), sub(_MATCH_IF, _MATCH_G3.replace("is_partially_expired = evaled_condition is expired_marker", "is_partially_expired = evaled_condition is True"))), "C43-R4")
+R.mutant("match-guard-clause-by-equality", BP,
+         sub(_MATCH_IF, "            if evaled_condition != True:\n                continue\n            result.append(\n                (obj, state, dict_, evaled_condition is evaluator._EXPIRED_OBJECT)\n            )\n"), "C43-R4")
+R.mutant("match-expired-not-matched", BP,
+         sub(_MATCH_IF, "            if evaled_condition is True:\n                result.append((obj, state, dict_, False))\n"), "C43-R4")
